@@ -264,6 +264,19 @@ def execute(sc):
                     V.append(viol("constant-trait-unit-scale", C0 + ".from_numpy", "scale", "constant column %d stored with scale %r" % (t, float(numpy.asarray(cur.scale)[t])), step=-1))
                     return _out(sc, V, log, kinds, faults, probes, 0)
                 probes["constant_column"] = 1
+            elif int((~numpy.isnan(col)).sum()) >= 2 and numpy.nanmax(col) != numpy.nanmin(col):
+                # a non-constant trait is stored centred and with unit spread
+                z = numpy.asarray(cur.mat, dtype=float)[:, t]
+                lo, sc_ = float(numpy.asarray(cur.location)[t]), float(numpy.asarray(cur.scale)[t])
+                tol = 64 * EPS * (abs(lo) + float(numpy.nanmax(numpy.abs(col)))) / max(abs(sc_), 1e-300) + 1e-9
+                if tol < 0.05:
+                    mu, sd = float(numpy.nanmean(z)), float(numpy.nanstd(z))
+                    if abs(mu) > tol or abs(sd - 1.0) > tol:
+                        V.append(viol("stored-centred-and-scaled", C0 + ".from_numpy", "non-constant-trait",
+                                      "column %d (raw spread %.3g): stored values have mean %.3g and standard deviation %.6g (reported location %r, scale %r)" %
+                                      (t, float(numpy.nanstd(col)), mu, sd, lo, sc_), step=-1))
+                        return _out(sc, V, log, kinds, faults, probes, 0)
+                    probes["standardisation_checked"] = 1
         if not _check_state(cur, rows, -1, C0 + ".from_numpy", V, "from_numpy"):
             return _out(sc, V, log, kinds, faults, probes, 0)
         # every value carries the rounding allowance of each representation (location/scale) it has been stored under
